@@ -347,8 +347,8 @@ theorem schedule_statics {e : Exec} {p : Bool} {r : Exec × Bool} (h : e.schedul
     | (cases h; done)
     | (cases h; rfl)
 
-theorem branch_statics {w w' : World} {o : Nat} {a : Action} {b : Bool}
-    (h : w.branch o a b = .ok w') :
+theorem branch_statics {w w' : World} {o : Nat} {a : Action} {b wt : Bool}
+    (h : w.branch o a b wt = .ok w') :
     w'.exec.lazyStatics = w.exec.lazyStatics ∧ w'.lazyInits = w.lazyInits := by
   unfold World.branch at h
   simp only [bind, Except.bind, pure, Except.pure] at h
